@@ -6,6 +6,13 @@ if TYPE_CHECKING:
     from dissect.cstruct.types import BaseType
 
 
+def _is_signed(type_: type[BaseType]) -> bool:
+    signed = getattr(type_, "signed", None)
+    if signed is None:
+        signed = getattr(type_, "packchar", None) in ("b", "h", "i", "l", "q")
+    return signed
+
+
 class BitBuffer:
     """Implements a bit buffer that can read and write bit fields."""
 
@@ -71,7 +78,12 @@ class BitBuffer:
 
     def flush(self) -> None:
         if self._type is not None:
-            self._type._write(self.stream, self._buffer)
+            value = self._buffer
+            bit_size = self._type.size * 8
+            if _is_signed(self._type) and value >= 1 << (bit_size - 1):
+                # The buffer holds the raw bits of the storage unit, signed storage types expect the two's complement value
+                value -= 1 << bit_size
+            self._type._write(self.stream, value)
         self._type = None
         self._remaining = 0
         self._buffer = 0
